@@ -1,19 +1,86 @@
 (* C07 — Simplification yields one canonical form per rewrite class.
-   Proved here: the shape of the result (every node has two or more operands, none of the node's
-   own kind, no two equal operands, operands in the order of the comparison used for sorting, all
-   recursively) and that this comparison is asymmetric. Idempotence and rewrite invariance are
-   stated in DESIGN.md (C07, "F") and are carried by the correspondence and the oracle only:
-   the theorem below is therefore named _partial. *)
-Require Import Model.Base Model.Expr Model.Simplify Proofs.Canonical.
+   Full statement on the model of boolean.py's DualBase.simplify as license expressions reach it:
+   (1) simplify is idempotent on well-formed expressions;
+   (2) simplify e = simplify e' whenever e' is obtained from e by any sequence of the rewrites of
+       the property applied at any node, in either direction: same operands in another order or
+       multiplicity, regrouping by associativity, joining an operand of the dual kind that contains
+       a license of the node (A OR (A AND B), A AND (A OR B)) - the inductive relation `rewrites`;
+       hence the text of the result does not change either;
+   (3) the result is canonical: every node has two or more operands, none of the node's own kind,
+       no two equal operands, operands in strictly increasing order of the comparison used by
+       list.sort(), recursively; on canonical forms the set-based == of boolean.py is identity
+       and that comparison is a strict total order.
+   Proofs/Normal.v: the result of one node depends only on the members of its flattened operands
+   (what absorption leaves = the operands no other operand absorbs; absorption is transitive and
+   antisymmetric on canonical operands; a strictly sorted list is determined by its members). *)
+Require Import Model.Base Model.Expr Model.Simplify Proofs.Canonical Proofs.Normal.
 
-Theorem C07_canonical_partial : forall e, wf e = true -> canonical (simplify e).
+Theorem C07_idempotent : forall e, wf e = true -> simplify (simplify e) = simplify e.
+Proof. exact simplify_idempotent. Qed.
+Print Assumptions C07_idempotent.
+
+Theorem C07_rewrite_invariant : forall e e', rewrites e e' -> simplify e = simplify e'.
+Proof. exact simplify_rewrite_invariant. Qed.
+Print Assumptions C07_rewrite_invariant.
+
+Theorem C07_rewrite_same_text : forall f wrap e e', rewrites e e' ->
+  render_with f wrap (simplify e) = render_with f wrap (simplify e').
+Proof. exact rewrites_same_text. Qed.
+Print Assumptions C07_rewrite_same_text.
+
+Theorem C07_same_operands : forall o xs ys, wf (mk o xs) = true -> wf (mk o ys) = true ->
+  (forall x, In x xs <-> In x ys) -> simplify (mk o xs) = simplify (mk o ys).
+Proof. exact simplify_same_operands. Qed.
+Print Assumptions C07_same_operands.
+
+Theorem C07_regroup : forall o l1 ys l2, wf (mk o (l1 ++ ys ++ l2)) = true -> wf (mk o (l1 ++ [mk o ys] ++ l2)) = true ->
+  simplify (mk o (l1 ++ ys ++ l2)) = simplify (mk o (l1 ++ [mk o ys] ++ l2)).
+Proof. exact simplify_group. Qed.
+Print Assumptions C07_regroup.
+
+Theorem C07_absorbed_operand : forall o l1 l2 a ys, wf (mk o (l1 ++ l2)) = true -> wf (mk o (l1 ++ [mk (dual o) ys] ++ l2)) = true ->
+  In (Lit a) (l1 ++ l2) -> In (Lit a) ys ->
+  simplify (mk o (l1 ++ l2)) = simplify (mk o (l1 ++ [mk (dual o) ys] ++ l2)).
+Proof. exact simplify_absorbed. Qed.
+Print Assumptions C07_absorbed_operand.
+
+Theorem C07_canonical : forall e, wf e = true -> canonical (simplify e).
 Proof. exact simplify_canonical. Qed.
-Print Assumptions C07_canonical_partial.
+Print Assumptions C07_canonical.
+
+Theorem C07_normal_form : forall e, wf e = true -> hnf (simplify e).
+Proof. exact simplify_hnf. Qed.
+Print Assumptions C07_normal_form.
 
 Theorem C07_no_own_kind : forall e, flatb (simplify e) = true.
 Proof. exact simplify_flat. Qed.
 Print Assumptions C07_no_own_kind.
 
+Theorem C07_order_total_on_canonical : forall a b, canonical a -> canonical b ->
+  a = b \/ expr_ltb a b = true \/ expr_ltb b a = true.
+Proof. exact canon_tri. Qed.
+Print Assumptions C07_order_total_on_canonical.
+
+Theorem C07_order_transitive_on_canonical : forall a b c, canonical a -> canonical b -> canonical c ->
+  expr_ltb a b = true -> expr_ltb b c = true -> expr_ltb a c = true.
+Proof. exact canon_trans. Qed.
+Print Assumptions C07_order_transitive_on_canonical.
+
+Theorem C07_eq_is_identity_on_canonical : forall a b, canonical a -> canonical b -> expr_eqb a b = true -> a = b.
+Proof. exact canon_eq. Qed.
+Print Assumptions C07_eq_is_identity_on_canonical.
+
 Theorem C07_order_asymmetric : forall a b, expr_ltb a b = true -> expr_ltb b a = false.
 Proof. exact expr_ltb_asym. Qed.
 Print Assumptions C07_order_asymmetric.
+
+(* the rewrite relation is inhabited by the examples of the property text: A OR (A AND B) ~ A OR A *)
+Example C07_example :
+  let A := Lit (Plain {| key := [97%N]; exc := false |}) in let B := Lit (Plain {| key := [98%N]; exc := false |}) in
+  rewrites (Or [A; A]) (Or [A; And [A; B]; A]) /\ simplify (Or [A; And [A; B]; A]) = A.
+Proof.
+  split; [|vm_compute; reflexivity].
+  apply (RW_absorb OpOr [Lit (Plain {| key := [97%N]; exc := false |})] [Lit (Plain {| key := [97%N]; exc := false |})]
+           (Plain {| key := [97%N]; exc := false |}) [Lit (Plain {| key := [97%N]; exc := false |}); Lit (Plain {| key := [98%N]; exc := false |})]);
+    [reflexivity | reflexivity | left; reflexivity | left; reflexivity].
+Qed.
